@@ -78,6 +78,9 @@ def run(ctx):
     ctx.traces_validated(len(gen.traces))
     ctx.note("points_generated", len(gen.traces))
     ctx.note("points_strict", r["strict_lines"])
+    ctx.note("points_doubled_backslash_in_name_weakly_judged", r.get("doubled_backslash_checks", 0))
+    if r.get("doubled_backslash_checks", 0) == 0:
+        raise InfraError("no doubled-backslash point was judged")
     ctx.note("per_family", r["per_family"])
     ctx.note("per_focus_section", r["per_focus_section"])
     ctx.note("batches", r["batches"])
@@ -92,10 +95,13 @@ def run(ctx):
         ctx.sample(s)
     ctx.assume("two concrete characters of the same class are treated alike by the parser (class abstraction); "
                "the concretisation draws letters, digits, punctuation and non-ASCII UTF-8 per seed")
-    ctx.assume("not generated (rules ambiguous or reserved): lone trailing backslash, doubled backslash outside string "
-               "values, unescaped '=' in tag/field keys and tag values, negative ns timestamps that are not multiples of "
+    ctx.assume("not generated (rules ambiguous or reserved): lone trailing backslash, unescaped '=' in tag/field keys and tag values, negative ns timestamps that are not multiples of "
                "1000, timestamps outside the int64 microsecond range, column names time / beginning with '_', equal tag "
                "and field keys, field type conflicts inside one measurement, unsigned values above MaxInt64")
+    ctx.assume("a backslash written as a pair in a measurement, tag key/value or field key (not in the published escape "
+               "tables, but named by the property statement) is judged up to the open choice: it may be stored as one or "
+               "two backslashes, but it escapes nothing after it, so the point must be kept with exactly its other "
+               "names/values; such points do not enter the batch and write-path tiers")
     ctx.assume("write-path tier calls the steps of handleWrite (ParseBatchWithPrecision, BatchToColumnar, measurement-name "
                "validation, WriteColumnarRecord, FlushAll) directly, without HTTP")
     for v in (r.get("violations") or []):
